@@ -51,6 +51,38 @@ def vcond(n):
     return None
 
 
+def cond(n):
+    """vcond extended with named boolean atoms: a bool-typed place (`port.follower`) and `let Some(x) = PLACE`."""
+    f = vcond(n)
+    if f is not None:
+        return f
+    n = strip(n)
+    k = n.get("k")
+    if k in ("Field", "Path") and n.get("ty") == "bool" and place(n):
+        return ("flag", place(n))
+    if k == "LetCond":
+        p = n["pat"]
+        if p.get("k") == "TupleStruct" and (p.get("path") or "").endswith("Some") and place(n["init"]):
+            return ("some", place(n["init"]), p["pats"][0].get("name"))
+    if k == "Unary" and n.get("op") == "Not":
+        f = cond(n["e"])
+        return None if f is None else ("not", f)
+    if k == "Binary" and n.get("op") in ("And", "Or"):
+        l, r = cond(n["l"]), cond(n["r"])
+        if l is None or r is None:
+            return None
+        return ("and" if n["op"] == "And" else "or", l, r)
+    return None
+
+
+class VEnv(tuple):
+    """a version class representative (major, minor) plus named boolean flags"""
+    def __new__(cls, v, flags=None):
+        o = tuple.__new__(cls, v)
+        o.flags = flags or {}
+        return o
+
+
 def mentions_version(n):
     """True if the expression tests a Version in a way vcond does not understand."""
     for x in tir.walk(n):
@@ -74,6 +106,11 @@ def feval(f, ver):
         return feval(f[1], ver) or feval(f[2], ver)
     if t == "const":
         return f[1]
+    if t in ("flag", "some"):
+        flags = getattr(ver, "flags", None)
+        if flags is None or f[1] not in flags:
+            raise Unsupported({}, "condition on `%s` cannot be evaluated in this context" % f[1])
+        return bool(flags[f[1]])
     raise ValueError(f)
 
 
@@ -109,6 +146,8 @@ def fstr(f):
         return "!(%s)" % fstr(f[1])
     if t in ("and", "or"):
         return "(%s %s %s)" % (fstr(f[1]), t, fstr(f[2]))
+    if t in ("flag", "some"):
+        return f[1]
     return str(f[1])
 
 
@@ -221,6 +260,10 @@ def seq(n, leaf_fn, st):
         return seq(n["e"], leaf_fn, st)
     if k == "If":
         f = vcond(n["cond"])
+        if f is None and st.get("flags_ok"):
+            f = cond(n["cond"])
+            if f is not None and f[0] == "some" and f[2]:
+                st.setdefault("alias", {})[f[2]] = f[1]
         if f is not None:
             then = seq(n["then"], leaf_fn, st)
             els = seq(n["else"], leaf_fn, st) if n.get("else") else []
@@ -565,10 +608,10 @@ def x_push_null(body):
 
 # ---------------------------------------------------------------- struct-literal shaped siblings
 
-def ctor_fields(n, fact_struct):
+def ctor_fields(n, fact_struct, any_stmts=False):
     """Fields of a struct literal or tuple-struct constructor call: [(name, expr)]"""
     n = strip_try(n)
-    while n.get("k") == "Block" and n.get("tail") is not None and all(s.get("k") == "Let" for s in n.get("stmts", [])):
+    while n.get("k") == "Block" and n.get("tail") is not None and (any_stmts or all(s.get("k") == "Let" for s in n.get("stmts", []))):
         n = strip_try(n["tail"])
     if n.get("k") == "Struct":
         return [(f["name"], f["e"]) for f in n["fields"]], n
@@ -840,7 +883,7 @@ def field_new(e, vname):
 
 def x_data_type(body):
     vname = param_named(body, "io::slippi::Version")
-    st = {"vec": None}
+    st = {"vec": None, "flags_ok": True}
 
     def lf(n, st):
         n = strip_try(n)
@@ -879,27 +922,52 @@ def x_data_type(body):
     return seq(body["tir"]["value"], lf, st)
 
 
-def boxed_src(e, vname):
-    """X.boxed() where X = self.F | self.F.unwrap() | (those).into_struct_array(version)"""
+def boxed_src(e, vname, st=None):
+    """X.boxed() where X = self.F | self.F.unwrap() | (those).into_struct_array(version ..)
+       | StructArray::new(Self::port_data_type(..), values, None) | ListArray::new(Self::item_data_type(..), offsets, values, None)"""
+    st = st or {}
     e = strip(e)
+    if local_name(e) is not None and local_name(e) in st.get("bound", {}):
+        return dict(st["bound"][local_name(e)])
     if not (e.get("k") == "MethodCall" and e["method"] == "boxed"):
         return None
     x = strip(e["recv"])
     d = dict(op="child", sp=tir.sp(e))
+    if x.get("k") == "Call" and (declared(x) or "") == "arrow2::array::StructArray::new":
+        dt, vals, validity = x["args"]
+        dtc = strip(dt)
+        d.update(kind="struct-of", dt_call=declared(dtc) if dtc.get("k") == "Call" else None, values=local_name(vals),
+                 values_kind=(st.get("bound", {}).get(local_name(vals)) or {}).get("kind"),
+                 validity="None" if (strip(validity).get("path") or "").endswith("None") else tir.pretty(validity), field=None, opt=False)
+        return d
+    if x.get("k") == "Call" and (declared(x) or "").startswith("arrow2::array::ListArray") and (declared(x) or "").endswith("::new"):
+        dt, offs, vals, validity = x["args"]
+        dtc = strip(dt)
+        inner = st.get("bound", {}).get(local_name(vals)) or boxed_src(vals, vname, st) or {}
+        d.update(kind="list", dt_call=declared(dtc) if dtc.get("k") == "Call" else None, offsets=field_of_self(offs), offsets_opt=through_option(offs),
+                 field=inner.get("field"), struct=inner.get("struct"), opt=inner.get("opt"),
+                 validity="None" if (strip(validity).get("path") or "").endswith("None") else tir.pretty(validity))
+        return d
     if x.get("k") == "MethodCall" and x["method"] == "into_struct_array" and "frame::immutable" in (declared(x) or ""):
         d["struct"] = struct_of_path(declared(x))
-        d["sub_args"] = [local_name(a) for a in x["args"]]
+        d["sub_args"] = [local_name(a) or tir.pretty(a) for a in x["args"]]
         x = strip(x["recv"])
     f = field_of_self(x)
+    opt = through_option(x)
+    ln = local_name(x)
+    if f is None and ln is not None and ln in st.get("alias", {}):
+        f = st["alias"][ln]
+        f = f[len("self."):] if f.startswith("self.") else f
+        opt = True
     d["field"] = f
-    d["opt"] = through_option(x)
+    d["opt"] = opt
     d["src_local"] = None if f else place(x)
     return d
 
 
 def x_into_struct_array(body):
     vname = param_named(body, "io::slippi::Version")
-    st = {"vec": None}
+    st = {"vec": None, "flags_ok": True, "bound": {}, "alias": {}}
 
     def lf(n, st):
         n = strip_try(n)
@@ -910,13 +978,32 @@ def x_into_struct_array(body):
                 st["vec"] = n["pat"]["name"]
                 out = []
                 for e in el:
-                    d = boxed_src(e, vname)
+                    d = boxed_src(e, vname, st)
                     if d is None:
                         raise Unsupported(e, "vec! element is not X.boxed()")
                     out.append(leaf(**d))
                 return out
+            d = boxed_src(n["init"], vname, st)
+            if d is not None:
+                st["bound"][n["pat"]["name"]] = d
+                return []
+            # let values: Vec<_> = zip(ports, self.ports).map(|(occupancy, data)| data.into_struct_array(version, *occupancy).boxed()).collect()
+            i = strip(n["init"])
+            if i.get("k") == "MethodCall" and i["method"] == "collect":
+                m = strip(i["recv"])
+                if m.get("k") == "MethodCall" and m["method"] == "map":
+                    z = strip(m["recv"])
+                    cl = strip(m["args"][0])
+                    if z.get("k") == "Call" and (declared(z) or "").endswith("iter::zip") and cl.get("k") == "Closure" and len(cl["params"]) == 1 and cl["params"][0].get("k") == "Tuple":
+                        a, b = [q.get("name") for q in cl["params"][0]["pats"]]
+                        za, zb = [place(x) for x in z["args"]]
+                        inner = boxed_src(cl["body"], vname, {"alias": {}, "bound": {}})
+                        if inner and inner.get("src_local") == b and inner.get("struct") and zb and zb.startswith("self."):
+                            st["bound"][n["pat"]["name"]] = dict(kind="zip", over=za, field=zb[5:], struct=inner["struct"], sub_args=inner.get("sub_args"), pair=(a, b))
+                            return []
+            return None
         if k == "MethodCall" and n["method"] == "push" and st["vec"] and local_name(n["recv"]) == st["vec"]:
-            d = boxed_src(n["args"][0], vname)
+            d = boxed_src(n["args"][0], vname, st)
             if d is None:
                 raise Unsupported(n, "pushed value is not X.boxed()")
             return [leaf(**d)]
@@ -949,7 +1036,7 @@ def x_from_struct_array(body):
     if not names or len(names) != 3:
         raise Unsupported(val, "no `let (fields, values, validity) = array.into_data()`")
     fields_n, values_n, validity_n = names
-    fields, node = ctor_fields(val, None)
+    fields, node = ctor_fields(val, None, any_stmts=True)
     out = []
 
     def downcast(e, holder):
@@ -1009,8 +1096,14 @@ def x_from_struct_array(body):
             c = child(holder)
             pos = resolve(c, bound, e)
             return dict(kind="prim", pos=pos, down=t, opt=False)
-        if local_name(e) == validity_n:
+        if validity_n is not None and local_name(e) == validity_n:
             return dict(kind="validity", pos=None, opt=False)
+        if e.get("k") == "Call" and e.get("local") and len(e.get("args", [])) >= 1:
+            dc = downcast(e["args"][0], None)
+            if dc is not None:
+                t, holder = dc
+                pos = resolve(child(holder), bound, e)
+                return dict(kind="subfn", fn=declared(e), pos=pos, down=t, opt=False, extra_args=[local_name(a) for a in e["args"][1:]])
         if local_name(e) is not None:
             return dict(kind="local", name=local_name(e), pos=None, opt=False)
         raise Unsupported(e, "import source outside the fragment: " + tir.pretty(e)[:100])
